@@ -749,7 +749,7 @@ func runC04SeatSuccessor(c *Ctx, ea *engineAnchors) {
 			// allowed only with fewer than two players, or through the range check of Player()
 			few, rng := false, false
 			for _, cd := range ps.Conds {
-				if cd.V.K == KAtom && cd.V.At.Op == "lt" && cd.V.Neg && cd.V.At.A.String() == "-len(GS.Players) + 1" {
+				if ltIs(cd.V, "len(GS.Players) - 2") {
 					few = true
 				}
 				if cd.V.K == KAtom && strings.Contains(cd.V.At.String(), ".Idx") {
